@@ -15,9 +15,16 @@
 
 using namespace verif;
 
-struct Mapping { uintptr_t base; size_t len; void *raw; size_t rawlen; };
+struct Mapping { uintptr_t base; size_t len; void *raw; size_t rawlen; void *bookkeeping = nullptr; };
 struct PolState { std::map<uintptr_t, Mapping> maps; uint64_t n_map = 0, n_unmap = 0; bool bad = false; std::string why; long fail_next = -1; };
 static PolState *g_ps;
+// re-entrant policy variant: the policy keeps one bookkeeping record per mapping and allocates it from the pool it serves
+// (the property promises this works because map/unmap are never called with a pool lock held)
+static bool g_reentrant = false;
+static thread_local int t_policy_depth = 0;
+struct SPolicy;
+static void *reentrant_alloc(size_t n);
+static void reentrant_free(void *p);
 
 struct SPolicy {
 	static constexpr size_t pagesize = 0x1000, slabsize = 0x1000, sb_size = 0x1000;
@@ -31,7 +38,9 @@ struct SPolicy {
 		size_t rawlen = len + align + pagesize;
 		void *raw = mmap(nullptr, rawlen, PROT_READ | PROT_WRITE, MAP_PRIVATE | MAP_ANONYMOUS | MAP_NORESERVE, -1, 0);
 		uintptr_t base = ((uintptr_t)raw + align - 1) & ~(uintptr_t)(align - 1);
-		g_ps->maps[base] = {base, len, raw, rawlen};
+		void *bk = nullptr;
+		if(g_reentrant && t_policy_depth == 0) { t_policy_depth++; bk = reentrant_alloc(24); t_policy_depth--; }
+		g_ps->maps[base] = {base, len, raw, rawlen, bk};
 		g_ps->n_map++;
 		return base;
 	}
@@ -40,12 +49,17 @@ struct SPolicy {
 		sched::yield_point("policy.unmap", len);
 		auto it = g_ps->maps.find(base);
 		if(it == g_ps->maps.end() || it->second.len != len) { if(!g_ps->bad) { g_ps->bad = true; g_ps->why = "unmap-unknown|unmap of a region that is not mapped with this base/length"; } return; }
+		void *bk = it->second.bookkeeping;
 		munmap(it->second.raw, it->second.rawlen);
 		g_ps->maps.erase(it);
 		g_ps->n_unmap++;
+		if(bk && t_policy_depth == 0) { t_policy_depth++; reentrant_free(bk); t_policy_depth--; }
 	}
 };
 using Pool = frg::slab_pool<SPolicy, sched::SchedMutex>;
+static Pool *g_pool_for_policy = nullptr;
+static void *reentrant_alloc(size_t n) { count("reentrant_policy_allocations"); return g_pool_for_policy ? g_pool_for_policy->allocate(n) : nullptr; }
+static void reentrant_free(void *p) { if(g_pool_for_policy) g_pool_for_policy->free(p); }
 
 struct Block { size_t req, size; uint64_t pat; int owner; };
 struct Mon {
@@ -95,13 +109,14 @@ struct Ctx {
 
 // script op: kind 0 alloc(size)->slot, 1 free(slot), 2 deallocate(slot), 3 realloc(slot,size)
 struct Op { int kind; int slot; size_t size; };
-struct Scenario { const char *name; std::vector<std::pair<int, size_t>> prefill; /* (slot, size) */ std::vector<std::vector<Op>> workers; int nslots; };
+struct Scenario { const char *name; std::vector<std::pair<int, size_t>> prefill; /* (slot, size) */ std::vector<std::vector<Op>> workers; int nslots; bool reentrant = false; };
 
 static void run_world(const char *mode, long long idx, const Scenario &sc, sched::Strategy &strat) {
 	begin_case(mode, idx);
 	Ctx cx; g_ps = &cx.ps; sched::g_smx = {};
 	SPolicy pol;
 	cx.pool = new Pool(pol);
+	g_reentrant = sc.reentrant; g_pool_for_policy = cx.pool; t_policy_depth = 0;
 	cx.slots.assign(sc.nslots, nullptr);
 	// prefill by the driver thread
 	for(auto &pf : sc.prefill) { void *p = cx.do_alloc(-1, pf.second); if(pf.first >= 0) cx.slots[pf.first] = p; }
@@ -126,6 +141,7 @@ static void run_world(const char *mode, long long idx, const Scenario &sc, sched
 	rec.counters["policy_map_calls"] += cx.ps.n_map;
 	if(cx.ps.n_map >= 2 + (sc.prefill.empty() ? 0 : 1)) count("schedules_with_concurrent_slab_construction_or_extra_map");
 	std::string tail; for(size_t k = w.trace.size() > 60 ? w.trace.size() - 60 : 0; k < w.trace.size(); k++) tail += w.trace[k] + " ";
+	if(idx == 1) sample(std::string(mode) + " schedule #1, scripts {" + sdesc + "} observed points: " + tail.substr(0, 900), 40);
 	auto flag = [&](const std::string &key, const std::string &what) { case_detail("%s :: last points: %s", sdesc.c_str(), tail.substr(0, 3000).c_str()); violation("C05:slab:" + key, what + " [" + std::string(sc.name) + ": " + sdesc + "]"); };
 	if(cx.ps.bad) { auto b = cx.ps.why.find('|'); flag(cx.ps.why.substr(0, b), cx.ps.why.substr(b + 1)); }
 	else if(cx.mon.bad) { auto b = cx.mon.why.find('|'); flag(cx.mon.why.substr(0, b), cx.mon.why.substr(b + 1)); }
@@ -140,7 +156,7 @@ static void run_world(const char *mode, long long idx, const Scenario &sc, sched
 	}
 	for(auto &kv : cx.ps.maps) munmap(kv.second.raw, kv.second.rawlen);
 	if(out.kind == sched::Outcome::Ok) delete cx.pool;
-	g_ps = nullptr;
+	g_ps = nullptr; g_pool_for_policy = nullptr; g_reentrant = false;
 }
 
 static std::vector<Scenario> scenarios() {
@@ -155,6 +171,8 @@ static std::vector<Scenario> scenarios() {
 		{"large-and-small", {}, {{{0, 0, 5000}, {1, 0, 0}}, {{0, 1, 8}, {0, 2, 9000}, {1, 2, 0}}}, 4},
 		{"realloc-moves-while-other-frees", almost128, {{{3, 0, 300}, {1, 0, 0}}, {{1, 1, 0}, {0, 4, 128}}}, 8},
 		{"three-workers-one-class", {}, {{{0, 0, 32}, {1, 0, 0}}, {{0, 1, 32}, {1, 1, 0}}, {{0, 2, 32}, {1, 2, 0}}}, 4},
+		{"reentrant-policy:both-find-class-empty", {}, {{{0, 0, 64}, {1, 0, 0}}, {{0, 1, 64}, {1, 1, 0}}}, 4, true},
+		{"reentrant-policy:large-alloc-and-free", {}, {{{0, 0, 5000}, {1, 0, 0}}, {{0, 1, 24}, {0, 2, 9000}, {1, 2, 0}}}, 4, true},
 	};
 }
 
@@ -188,7 +206,7 @@ int main(int argc, char **argv) {
 			uint64_t cs = sr.next();
 			if(!want_case(i)) continue;
 			Rng r(cs);
-			Scenario sc; sc.name = "random-scripts"; sc.nslots = 12;
+			Scenario sc; sc.name = "random-scripts"; sc.nslots = 12; sc.reentrant = r.chance(1, 3);
 			int nw = 2 + r.below(2);
 			for(size_t k = r.below(3) ? 0 : 28 + r.below(5); k; k--) sc.prefill.push_back({k <= 4 ? (int)k - 1 : -1, 128});
 			sc.workers.resize(nw);
